@@ -157,6 +157,15 @@ func runC12(c *fw.Ctx) {
 						k.Failf("harness: %v", err)
 						return
 					}
+					if k.Rng.Intn(3) == 0 { // a diverged batch of the same shape first (NaN / +-Inf predictions): its outcome is ignored
+						bad := p.Clone()
+						for i := range bad.Data {
+							bad.Data[i] = []float64{math.NaN(), math.Inf(1), math.Inf(-1), 0.5}[k.Rng.Intn(4)]
+						}
+						bad.Data[0] = math.NaN()
+						k.Count("non_finite_batches_fed_before_a_finite_one", 1)
+						call(func() { _, _ = obj.Compute(rt.MustLeaf(bad, k.Rng.Intn(2) == 0), rt.MustLeaf(t, false)) })
+					}
 					var l tensor.Tensor
 					if pn := call(func() { l, err = obj.Compute(rt.MustLeaf(p, k.Rng.Intn(2) == 0), rt.MustLeaf(t, false)) }); pn != nil || err != nil || l == nil {
 						k.Failf("%s.Compute call %d on one object (shape %v, previous shapes %s): panic=%v err=%v", kind, s+1, shape, key, pn, err)
